@@ -371,7 +371,8 @@ class Eval:
         if name == "sum" and isinstance(x, M):
             return CNT(x, axis_kind(args, kwargs, 0))
         if name in ("all", "any") and isinstance(x, M):
-            return CNT(x, name)
+            ak = axis_kind(args, kwargs, 0)
+            return CNT(x, name if ak == "all" else "%s-%s" % (name, ak))
         raise Inconclusive("PW: method .%s" % name)
 
     def t_ext(self, t):
@@ -453,10 +454,12 @@ class Eval:
                 x = lift(lambda e: b2e(nzb(e)), x)            # counts the non-zero entries, whatever their value
             if isinstance(x, M):
                 return CNT(x, axis_kind(args, kwargs, 1))
-        if d in ("numpy.any", "numpy.all") and len(args) == 1:
+        if d in ("numpy.any", "numpy.all") and len(args) >= 1:
             x = self.ev(args[0])
             if isinstance(x, M):
-                return CNT(x, d.split(".")[-1])
+                ak = axis_kind(args, kwargs, 1)
+                nm_ = d.split(".")[-1]
+                return CNT(x, nm_ if ak == "all" else "%s-%s" % (nm_, ak))
         if d in ("numpy.maximum", "numpy.minimum") and len(args) == 2:
             f = signs.smax if d.endswith("maximum") else signs.smin
 
